@@ -492,7 +492,7 @@ def _ctor_src(d, e, params):
     return ("other", re.sub(r"\s+", " ", d.text(e))[:50])
 
 
-def rule_ctor(rep, tier):
+def rule_ctor(rep, tier, strict=False):
     rep.rule("C04.ctor", "constructors and assignment operators of xoptional / xmasked_value carry the presence: from another optional the flag is that optional's flag (never "
                          "a constant), from a plain value it is true, from (value, flag) it is the flag argument, default construction is missing (xoptional) / visible "
                          "(xmasked_value); a delegating constructor is judged by the arguments it delegates")
@@ -523,6 +523,7 @@ def rule_ctor(rep, tier):
         from_opt = len(params) == 1 and OPT_TYPE_RE.search(ptypes[0] or "") is not None
         vsrc = fsrc = None
         deleg = None
+        conditional = []
         if kind == "CXXConstructorDecl":
             inits = [c for c in f.get("inner", []) if c.get("kind") == "CXXCtorInitializer"]
             if not inits:
@@ -548,6 +549,14 @@ def rule_ctor(rep, tier):
                     l_ = ir.strip(l_)
                     while l_.get("kind") in ("ImplicitCastExpr",) and ir.ekids(l_):
                         l_ = ir.strip(ir.ekids(l_)[0])
+                    if l_.get("kind") == "MemberExpr" and l_.get("name") in ("m_value", flagname):
+                        # an assignment that only happens under a condition does not always take the source over
+                        up, hops = d.parent_of(st), 0
+                        while up is not None and up is not f and hops < 30:
+                            if up.get("kind") in ("IfStmt", "ConditionalOperator", "SwitchStmt", "WhileStmt", "ForStmt"):
+                                conditional.append((l_.get("name"), up))
+                                break
+                            up, hops = d.parent_of(up), hops + 1
                     if l_.get("kind") == "MemberExpr" and l_.get("name") == "m_value" and vsrc is None:
                         vsrc = _ctor_src(d, r_, params)
                     elif l_.get("kind") == "MemberExpr" and l_.get("name") == flagname and fsrc is None:
@@ -569,7 +578,17 @@ def rule_ctor(rep, tier):
                 rep.inconclusive("C04.ctor", lab, what, where=w, detail="delegates with %d arguments" % len(deleg))
                 continue
         bad = inc = None
-        if from_opt:
+        if conditional:
+            cnd = re.sub(r"\s+", " ", d.text(ir.kids(conditional[0][1])[0]))[:40] if ir.kids(conditional[0][1]) else "?"
+            msg = "`%s` is assigned only under the condition `%s`: otherwise the target keeps its old %s while the other half is taken over" % (
+                conditional[0][0], cnd, "value" if conditional[0][0] == "m_value" else "flag")
+            if strict:
+                bad = msg
+            else:
+                inc = msg
+        if bad or inc:
+            pass
+        elif from_opt:
             P = params[0]
             if fsrc in (("true",), ("false",)):
                 bad = "a copy/conversion from another optional sets the flag to the constant `%s`%s: a missing source becomes present" % (fsrc[0], " (it delegates to the constructor of a plain value)" if deleg is not None else "")
